@@ -1,32 +1,45 @@
 import YaegiVerif.Proofs.C03Eval
-/- C03: the post-order case `binaryExpr` (arithmetic operators) of the interpreter model agrees with the
-   specification on integer constants whenever the specification accepts the operation. -/
+/- C03: the post-order case `binaryExpr` (arithmetic operators) of the interpreter model has exactly the outcome
+   of the specification on integer constants: the same value and type when the specification accepts the operation,
+   a compile error when it does not (mismatched types, an operand or the result not representable in the operand
+   type, a zero divisor, an untyped result of more than 512 bits). -/
 namespace YaegiVerif.Proofs.C03
 open YaegiVerif YaegiVerif.Const
 
+theorem finish_untyped_int_eq (r : Int) (u : UK) (hu : u = .int ∨ u = .rune) :
+    Spec.finish (.int r) (.u u) = if bitLen r > Spec.maxUntypedBits then .reject else .ok ⟨.int r, .u u⟩ := by
+  rcases hu with rfl | rfl <;> simp [Spec.finish]
+
+theorem finish_typed_int_eq (r : Int) (k : IKind) :
+    Spec.finish (.int r) (.t (.i k)) = if Spec.reprGo k r = true then .ok ⟨.int r, .t (.i k)⟩ else .reject := by
+  simp only [Spec.finish, Spec.representGo, CV.toInt]
+  by_cases hr : Spec.reprGo k r = true <;> simp [hr]
+
 theorem finish_untyped_int (r : Int) (u : UK) (hu : u = .int ∨ u = .rune) (gv : Spec.GV)
     (h : Spec.finish (.int r) (.u u) = .ok gv) : gv = ⟨.int r, .u u⟩ := by
-  simp only [Spec.finish] at h
+  rw [finish_untyped_int_eq r u hu] at h
   split at h
   · cases h
   · injection h with h; exact h.symm
 
 theorem finish_typed_int (r : Int) (k : IKind) (gv : Spec.GV)
     (h : Spec.finish (.int r) (.t (.i k)) = .ok gv) : gv = ⟨.int r, .t (.i k)⟩ ∧ Spec.reprGo k r = true := by
-  simp only [Spec.finish, Spec.representGo, CV.toInt] at h
+  rw [finish_typed_int_eq] at h
   by_cases hr : Spec.reprGo k r = true
   · simp [hr] at h; exact ⟨h.symm, hr⟩
   · simp [hr] at h
 
-theorem zeroConstY_untyped (n : NS) (u : UK) (q : Int) (hty : n.ty = .u u) (hrv : n.rv = .c (.int q)) :
-    zeroConstY n = .ok (decide (q = 0)) := by
-  simp only [zeroConstY, hty, Ty.untyped, Bool.not_true, Bool.false_eq_true, if_false, hrv, CV.sign]
+theorem zeroConstY_untyped (n : NS) (u : UK) (hu : u = .int ∨ u = .rune) (q : Int) (hty : n.ty = .u u)
+    (hrv : n.rv = .c (.int q)) : zeroConstY F0 n = .ok (decide (q = 0)) := by
+  have hnum : (Ty.u u).isNumber = true := by rcases hu with rfl | rfl <;> rfl
+  simp only [zeroConstY, F0_chk, Expected.C03.checkFacts, hty, hnum, Bool.not_true, Bool.false_eq_true, if_false, hrv, CV.sign]
   by_cases h0 : q = 0
   · subst h0; simp
   · by_cases hneg : q < 0 <;> simp [h0, hneg]
 
-theorem zeroConstY_typed (n : NS) (b : BT) (hty : n.ty = .t b) : zeroConstY n = .ok false := by
-  simp [zeroConstY, hty, Ty.untyped]
+theorem zeroConstY_typed (n : NS) (k : IKind) (q : Int) (hty : n.ty = .t (.i k)) (hrv : n.rv = .r (.i k) (.int q)) :
+    zeroConstY F0 n = .ok (!n.set && q == 0) := by
+  simp [zeroConstY, Expected.C03.checkFacts, hty, hrv, Ty.isNumber, Ty.isInt, Ty.rtype, BT.isInt]
 
 theorem kindRank_u (u : UK) (hu : u = .int ∨ u = .rune) : (Ty.u u).kindRank = (if u = .int then 2 else 5) := by
   rcases hu with rfl | rfl <;> rfl
@@ -34,120 +47,207 @@ theorem kindRank_u (u : UK) (hu : u = .int ∨ u = .rune) : (Ty.u u).kindRank = 
 /-- the later of two untyped integer kinds (integer < rune) -/
 def umax (ka kb : UK) : UK := if Spec.ukRank ka ≤ Spec.ukRank kb then kb else ka
 
-/-- both operands untyped integer constants -/
-theorem binNodeY_uu (env : Env) (a : Act) (ha : isArith a = true) (c0 c1 : NS)
+theorem umax_int_or_rune (ka kb : UK) (hka : ka = .int ∨ ka = .rune) (hkb : kb = .int ∨ kb = .rune) :
+    umax ka kb = .int ∨ umax ka kb = .rune := by
+  rcases hka with rfl | rfl <;> rcases hkb with rfl | rfl <;> simp [umax, Spec.ukRank]
+
+/-- `check.binaryExpr` on two untyped integer constants: a constant zero divisor is refused, otherwise both operands
+    take the later of the two kinds (the quotient too, since 4bcc5b4) -/
+theorem checkBinaryY_uu (forced : Option Ty) (hf : ∀ f, forced = some f → f.isNumber = true)
+    (a : Act) (ha : isArith a = true) (c0 c1 : NS)
     (ka kb : UK) (p q : Int) (hka : ka = .int ∨ ka = .rune) (hkb : kb = .int ∨ kb = .rune)
-    (h0ty : c0.ty = .u ka) (h0rv : c0.rv = .c (.int p)) (h1ty : c1.ty = .u kb) (h1rv : c1.rv = .c (.int q))
-    (hq : a = .quo → ¬ (ka = .rune ∧ kb = .int)) (hz : ¬ (needsNZ a = true ∧ q = 0)) :
-    binNodeY F0 env none a c0 c1 =
-      .ok { rv := .c (.int (iop a p q)), ty := .u (umax ka kb), inner := c0.loose || c1.loose } := by
-  have hz1 := zeroConstY_untyped c1 kb q h1ty h1rv
-  have hfold : ∀ nty : Ty, nty.untyped = true → nty.isInt = true →
-      foldBinY F0 a nty (.c (.int p)) (.c (.int q)) = .ok (.c (.int (iop a p q))) :=
-    fun nty _ _ => foldBinY_const a ha nty p q hz
-  obtain ⟨rv0, ty0, s0, i0, f0⟩ := c0
-  obtain ⟨rv1, ty1, s1, i1, f1⟩ := c1
-  simp only at h0ty h0rv h1ty h1rv
-  subst h0ty h0rv h1ty h1rv
-  by_cases hquo : a = .quo
-  · subst hquo
-    have hne := hq rfl
-    have hq0 : q ≠ 0 := fun h => hz ⟨rfl, h⟩
-    rcases hka with rfl | rfl <;> rcases hkb with rfl | rfl <;>
-      first
-      | exact absurd ⟨rfl, rfl⟩ hne
-      | (simp [binNodeY, checkBinaryY, hz1, hq0, binTypeY, Ty.untyped, Ty.isInt, Ty.isFloat, Ty.rtype, BT.isInt, BT.isFloat,
-             fixUntypedY, umax, Spec.ukRank, NS.loose]
-         rw [hfold _ rfl rfl]; rfl)
-  · have hzz : a = .rem → q ≠ 0 := fun h0 h => hz ⟨by subst h0; rfl, h⟩
-    rcases hka with rfl | rfl <;> rcases hkb with rfl | rfl <;>
-      (cases a <;> simp [isArith] at ha <;> first
-        | exact absurd rfl hquo
-        | (simp [binNodeY, checkBinaryY, hz1, hzz, convertUntypedY, binaryPredY, binTypeY, Ty.untyped, Ty.isInt, Ty.isFloat,
-             Ty.isNumber, Ty.kindRank, Ty.rtype, BT.isInt, BT.isFloat, fixUntypedY, umax, Spec.ukRank, NS.loose]
-           rw [hfold _ rfl rfl]; rfl))
+    (h0ty : c0.ty = .u ka) (h1ty : c1.ty = .u kb) (h1rv : c1.rv = .c (.int q)) :
+    checkBinaryY F0 forced a c0 c1 =
+      if needsNZ a = true ∧ q = 0 then .reject
+      else .ok ({ c0 with ty := .u (umax ka kb) }, { c1 with ty := .u (umax ka kb) }) := by
+  have hz1 := zeroConstY_untyped c1 kb hkb q h1ty h1rv
+  obtain ⟨rv0, ty0, s0, i0, f0, t0⟩ := c0
+  obtain ⟨rv1, ty1, s1, i1, f1, t1⟩ := c1
+  simp only at h0ty h1ty h1rv
+  subst h0ty h1ty h1rv
+  have hn0 : (Ty.u ka).isNumber = true := by rcases hka with rfl | rfl <;> rfl
+  have hn1 : (Ty.u kb).isNumber = true := by rcases hkb with rfl | rfl <;> rfl
+  have haddok : addOkY a forced (Ty.u ka) (Ty.u kb) = true := by
+    cases forced with
+    | none => cases a <;> rfl
+    | some f => have := hf f rfl; cases a <;> simp [addOkY, this, hn0, hn1]
+  simp only [checkBinaryY, haddok, Bool.not_true, Bool.false_eq_true, if_false]
+  by_cases hz : needsNZ a = true ∧ q = 0
+  · rw [if_pos hz]
+    obtain ⟨hnz, hq0⟩ := hz
+    subst hq0
+    have hrq : (a == Act.rem || a == Act.quo) = true := by cases a <;> simp [needsNZ] at hnz <;> rfl
+    simp [hrq, hz1]
+  · rw [if_neg hz]
+    have hzb : ((if (a == Act.rem || a == Act.quo) = true then zeroConstY F0
+        { rv := .c (.int q), ty := .u kb, self := s1, inner := i1, fidx := f1, set := t1 } else Res.ok false).bind
+          fun z => (if z = true then Res.reject else Res.ok ()) : Res Unit) = .ok () := by
+      by_cases hrq : (a == Act.rem || a == Act.quo) = true
+      · have : q ≠ 0 := by intro h; apply hz; refine ⟨?_, h⟩; cases a <;> simp at hrq <;> rfl
+        simp [hrq, hz1, this]
+      · simp [hrq]
+    by_cases hrq : (a == Act.rem || a == Act.quo) = true
+    · have hq0 : q ≠ 0 := by intro h; apply hz; refine ⟨?_, h⟩; cases a <;> simp at hrq <;> rfl
+      rcases hka with rfl | rfl <;> rcases hkb with rfl | rfl <;>
+        (cases a <;> simp [isArith] at ha <;> simp at hrq <;>
+         simp [hz1, hq0, convertUntypedY, binaryPredY, Ty.untyped, Ty.isInt, Ty.isFloat, Ty.isNumber, Ty.kindRank, Ty.rtype,
+           BT.isInt, BT.isFloat, umax, Spec.ukRank, Expected.C03.checkFacts])
+    · rcases hka with rfl | rfl <;> rcases hkb with rfl | rfl <;>
+        (cases a <;> simp [isArith] at ha <;> simp at hrq <;>
+         simp [convertUntypedY, binaryPredY, Ty.untyped, Ty.isInt, Ty.isFloat, Ty.isNumber, Ty.kindRank, Ty.rtype,
+           BT.isInt, BT.isFloat, umax, Spec.ukRank, Expected.C03.checkFacts])
+
+/-- both operands untyped integer constants, whatever (numeric) type the context pushed down: the node stays untyped
+    (7973ebe), the quotient goes through the operand conversions like every other operator (4bcc5b4: `'a' / 2` is a
+    rune constant), the result is limited to 512 bits (b425d98) -/
+theorem binNodeY_uu (env : Env) (forced : Option Ty) (hf : ∀ f, forced = some f → f.isNumber = true)
+    (a : Act) (ha : isArith a = true) (c0 c1 : NS)
+    (ka kb : UK) (p q : Int) (hka : ka = .int ∨ ka = .rune) (hkb : kb = .int ∨ kb = .rune)
+    (h0ty : c0.ty = .u ka) (h0rv : c0.rv = .c (.int p)) (h1ty : c1.ty = .u kb) (h1rv : c1.rv = .c (.int q)) :
+    binNodeY F0 env forced a c0 c1 =
+      if needsNZ a = true ∧ q = 0 then .reject
+      else if bitLen (iop a p q) > 512 then .reject
+      else .ok { rv := .c (.int (iop a p q)), ty := .u (umax ka kb), inner := c0.loose || c1.loose } := by
+  have hchk := checkBinaryY_uu forced hf a ha c0 c1 ka kb p q hka hkb h0ty h1ty h1rv
+  simp only [binNodeY, hchk]
+  by_cases hz : needsNZ a = true ∧ q = 0
+  · simp only [if_pos hz, bind_reject]
+  · simp only [if_neg hz, bind_ok]
+    have hum := umax_int_or_rune ka kb hka hkb
+    have hnty : nodeTyY F0 forced false { c0 with ty := .u (umax ka kb) } { c1 with ty := .u (umax ka kb) } =
+        .u (umax ka kb) := by
+      cases forced with
+      | none => rcases hum with h | h <;> simp [nodeTyY, stayUntypedY, binTypeY, h, Ty.untyped, Ty.isInt, Ty.isFloat, Ty.rtype, BT.isInt, BT.isFloat]
+      | some f => simp [nodeTyY, stayUntypedY, isUntypedConstY, h0rv, h1rv, isConstRV, Ty.untyped, Expected.C03.checkFacts]
+    simp only [hnty, ite_self]
+    rw [constExprY_cc a false _ _ (by simp [h0rv, isConstRV]) (by simp [h1rv, isConstRV])]
+    simp only [Expected.C03.checkFacts, F0_chk, if_true, bind_ok, h0rv, h1rv, foldBinY_const a ha _ p q hz, constOverflowY_c]
+    by_cases hb : bitLen (iop a p q) > 512
+    · simp only [if_pos hb, bind_reject]
+    · simp only [if_neg hb, bind_ok]
+      rcases hum with h | h <;> simp [fixUntypedY, h, Ty.untyped, NS.loose, isSetRV]
 
 theorem convertUntypedY_typed (n : NS) (b : BT) (target : Ty) (hty : n.ty = .t b) :
     convertUntypedY F0 n target = .ok (some n) := by
   simp [convertUntypedY, hty, Ty.untyped]
 
-/-- left operand of integer type `k`, right operand an untyped integer constant -/
-theorem binNodeY_tu (env : Env) (a : Act) (ha : isArith a = true) (c0 c1 : NS)
-    (k : IKind) (kb : UK) (p q : Int) (hkb : kb = .int ∨ kb = .rune)
-    (h0ty : c0.ty = .t (.i k)) (h0rv : c0.rv = .r (.i k) (.int p)) (h1ty : c1.ty = .u kb) (h1rv : c1.rv = .c (.int q))
-    (hp : Spec.reprGo k p = true) (hq : Spec.reprGo k q = true)
-    (hz : ¬ (needsNZ a = true ∧ q = 0)) (hr : Spec.reprGo k (iop a p q) = true) :
-    binNodeY F0 env none a c0 c1 = .ok { rv := .r (.i k) (.int (iop a p q)), ty := .t (.i k) } := by
-  have hz1 := zeroConstY_untyped c1 kb q h1ty h1rv
-  have hcv := convertUntypedY_int c1 kb q k h1ty h1rv hq
-  have hc0 : ∀ target, convertUntypedY F0 c0 target = .ok (some c0) := fun t => convertUntypedY_typed c0 _ t h0ty
-  have hf1 := foldBinY_typed a ha k (.r (.i k) (.int p)) (.r (.i k) (.int q)) p q (Or.inl rfl) (Or.inl rfl)
-    (by simp) hp hq hz hr
-  have hf2 := foldBinY_typed a ha k (.r (.i k) (.int p)) (.c (.int q)) p q (Or.inl rfl) (Or.inr rfl)
-    (by simp) hp hq hz hr
-  obtain ⟨rv0, ty0, s0, i0, f0⟩ := c0
-  obtain ⟨rv1, ty1, s1, i1, f1⟩ := c1
-  simp only at h0ty h0rv h1ty h1rv
-  subst h0ty h0rv h1ty h1rv
-  by_cases hquo : a = .quo
-  · subst hquo
-    have hq0 : q ≠ 0 := fun h => hz ⟨rfl, h⟩
-    simp [binNodeY, checkBinaryY, hz1, hq0, binTypeY, Ty.untyped, hf2, fixUntypedY]
-  · have hzz : a = .rem → q ≠ 0 := fun h0 h => hz ⟨by subst h0; rfl, h⟩
-    cases a <;> simp [isArith] at ha <;> first
-      | exact absurd rfl hquo
-      | simp [binNodeY, checkBinaryY, hz1, hzz, hc0, hcv, binaryPredY, binTypeY, Ty.untyped, Ty.isInt, Ty.isNumber,
-          Ty.rtype, BT.isInt, hf1, fixUntypedY]
+/-- what the post-order case does once `check.binaryExpr` has accepted (and converted) the operands -/
+def postCheck (env : Env) (a : Act) (c0 c1 : NS) : Res NS :=
+  let nty : Ty := if a == Act.rem then c0.ty else nodeTyY F0 none false c0 c1
+  (constExprY F0 a false c0 c1).bind fun _ =>
+  (foldBinY F0 a nty c0.rv c1.rv).bind fun rv =>
+  (constOverflowY F0 rv).bind fun _ =>
+  fixUntypedY F0 env nty c0 c1 rv
 
-/-- left operand an untyped integer constant, right operand of integer type `k` -/
-theorem binNodeY_ut (env : Env) (a : Act) (ha : isArith a = true) (c0 c1 : NS)
-    (k : IKind) (ka : UK) (p q : Int)
-    (h0ty : c0.ty = .u ka) (h0rv : c0.rv = .c (.int p)) (h1ty : c1.ty = .t (.i k)) (h1rv : c1.rv = .r (.i k) (.int q))
-    (hp : Spec.reprGo k p = true) (hq : Spec.reprGo k q = true)
-    (hz : ¬ (needsNZ a = true ∧ q = 0)) (hr : Spec.reprGo k (iop a p q) = true) :
-    binNodeY F0 env none a c0 c1 = .ok { rv := .r (.i k) (.int (iop a p q)), ty := .t (.i k) } := by
-  have hz1 := zeroConstY_typed c1 _ h1ty
-  have hcv := convertUntypedY_int c0 ka p k h0ty h0rv hp
-  have hc1 : ∀ target, convertUntypedY F0 c1 target = .ok (some c1) := fun t => convertUntypedY_typed c1 _ t h1ty
-  have hf1 := foldBinY_typed a ha k (.r (.i k) (.int p)) (.r (.i k) (.int q)) p q (Or.inl rfl) (Or.inl rfl)
-    (by simp) hp hq hz hr
-  have hf2 := foldBinY_typed a ha k (.c (.int p)) (.r (.i k) (.int q)) p q (Or.inr rfl) (Or.inl rfl)
-    (by simp) hp hq hz hr
-  obtain ⟨rv0, ty0, s0, i0, f0⟩ := c0
-  obtain ⟨rv1, ty1, s1, i1, f1⟩ := c1
-  simp only at h0ty h0rv h1ty h1rv
-  subst h0ty h0rv h1ty h1rv
-  by_cases hquo : a = .quo
-  · subst hquo
-    simp [binNodeY, checkBinaryY, hz1, binTypeY, Ty.untyped, hf2, fixUntypedY]
-  · cases a <;> simp [isArith] at ha <;> first
-      | exact absurd rfl hquo
-      | simp [binNodeY, checkBinaryY, hz1, hc1, hcv, binaryPredY, binTypeY, Ty.untyped, Ty.isInt, Ty.isNumber,
-          Ty.rtype, BT.isInt, hf1, fixUntypedY]
+theorem binNodeY_post (env : Env) (a : Act) (c0 c1 : NS) :
+    binNodeY F0 env none a c0 c1 = (checkBinaryY F0 none a c0 c1).bind fun x => postCheck env a x.1 x.2 := by
+  simp [binNodeY, postCheck, Expected.C03.checkFacts]
 
-/-- both operands of the same integer type `k` -/
-theorem binNodeY_tt (env : Env) (a : Act) (ha : isArith a = true) (c0 c1 : NS)
-    (k : IKind) (p q : Int)
+/-- two operands of one integer type `k` (reflect values): the operation is recomputed exactly (`constExpr`,
+    5e2cd1c) — a zero divisor and a result that is not representable in `k` are compile errors — and the typed arm of
+    the folding function then yields that exact result -/
+theorem postCheck_rr (env : Env) (a : Act) (ha : isArith a = true) (c0 c1 : NS) (k : IKind) (p q : Int)
     (h0ty : c0.ty = .t (.i k)) (h0rv : c0.rv = .r (.i k) (.int p)) (h1ty : c1.ty = .t (.i k)) (h1rv : c1.rv = .r (.i k) (.int q))
-    (hp : Spec.reprGo k p = true) (hq : Spec.reprGo k q = true)
-    (hz : ¬ (needsNZ a = true ∧ q = 0)) (hr : Spec.reprGo k (iop a p q) = true) :
-    binNodeY F0 env none a c0 c1 = .ok { rv := .r (.i k) (.int (iop a p q)), ty := .t (.i k) } := by
-  have hz1 := zeroConstY_typed c1 _ h1ty
+    (hp : Spec.reprGo k p = true) (hq : Spec.reprGo k q = true) :
+    postCheck env a c0 c1 =
+      if needsNZ a = true ∧ q = 0 then .reject
+      else if Spec.reprGo k (iop a p q) = true then
+        .ok { rv := .r (.i k) (.int (iop a p q)), ty := .t (.i k), set := true }
+      else .reject := by
+  have hce := constExprY_rr a ha c0 c1 k p q h0ty h0rv h1rv
+  have hnty : (if (a == Act.rem) = true then c0.ty else nodeTyY F0 none false c0 c1) = .t (.i k) := by
+    split
+    · exact h0ty
+    · simp [nodeTyY, stayUntypedY, binTypeY, h0ty, Ty.untyped]
+  simp only [postCheck, hce, hnty]
+  by_cases hz : needsNZ a = true ∧ q = 0
+  · simp only [if_pos hz, bind_reject]
+  · simp only [if_neg hz]
+    by_cases hr : Spec.reprGo k (iop a p q) = true
+    · simp only [if_pos hr, bind_ok, h0rv, h1rv]
+      rw [foldBinY_typed a ha k _ _ p q (Or.inl rfl) (Or.inl rfl) (by simp) hp hq hz hr]
+      simp [constOverflowY_r k _ hr, fixUntypedY, Ty.untyped, isSetRV]
+    · simp only [if_neg hr, bind_reject]
+
+/-- `check.binaryExpr`, first operand of integer type `k`, second an untyped integer constant -/
+theorem checkBinaryY_tu (a : Act) (ha : isArith a = true) (c0 c1 : NS) (k : IKind) (kb : UK) (q : Int)
+    (hkb : kb = .int ∨ kb = .rune) (h0ty : c0.ty = .t (.i k)) (h1ty : c1.ty = .u kb) (h1rv : c1.rv = .c (.int q)) :
+    checkBinaryY F0 none a c0 c1 =
+      if needsNZ a = true ∧ q = 0 then .reject
+      else if Spec.reprGo k q = true then
+        .ok (c0, { c1 with rv := .r (.i k) (.int q), ty := .t (.i k), self := false, set := false })
+      else .reject := by
+  have hz1 := zeroConstY_untyped c1 kb hkb q h1ty h1rv
+  have hc0 : ∀ target, convertUntypedY F0 c0 target = .ok (some c0) := fun t => convertUntypedY_typed c0 _ t h0ty
+  simp only [checkBinaryY, addOkY, Bool.not_true, Bool.false_eq_true, if_false]
+  by_cases hz : needsNZ a = true ∧ q = 0
+  · rw [if_pos hz]
+    obtain ⟨hnz, hq0⟩ := hz
+    subst hq0
+    have hrq : (a == Act.rem || a == Act.quo) = true := by cases a <;> simp [needsNZ] at hnz <;> rfl
+    simp [hrq, hz1]
+  · rw [if_neg hz]
+    have hzero : ((if (a == Act.rem || a == Act.quo) = true then zeroConstY F0 c1 else Res.ok false) : Res Bool) = .ok false := by
+      by_cases hrq : (a == Act.rem || a == Act.quo) = true
+      · have : q ≠ 0 := by intro h; apply hz; refine ⟨?_, h⟩; cases a <;> simp at hrq <;> rfl
+        simp [hrq, hz1, this]
+      · simp [hrq]
+    simp only [hzero, bind_ok, Bool.false_eq_true, if_false, Expected.C03.checkFacts, F0_chk, Bool.and_false, hc0, Option.getD_some, h0ty]
+    by_cases hr : Spec.reprGo k q = true
+    · rw [if_pos hr, convertUntypedY_int c1 kb hkb q k h1ty h1rv hr]
+      cases a <;> simp [isArith] at ha <;> simp [binaryPredY, Ty.isNumber, Ty.isInt, Ty.rtype, BT.isInt]
+    · have hr' : Spec.reprGo k q = false := by simpa using hr
+      rw [if_neg hr, convertUntypedY_int_none c1 kb hkb q k h1ty h1rv hr']
+      simp [h1ty]
+
+/-- `zeroConst` on a typed divisor that is a reflect value: only a value that cannot be set (a converted constant)
+    is taken for a constant; `constExpr` refuses the others -/
+theorem zero_typed_cases (a : Act) (c1 : NS) (k : IKind) (q : Int) (h1ty : c1.ty = .t (.i k)) (h1rv : c1.rv = .r (.i k) (.int q)) :
+    ((if (a == Act.rem || a == Act.quo) = true then zeroConstY F0 c1 else Res.ok false) : Res Bool) =
+      .ok ((a == Act.rem || a == Act.quo) && (!c1.set && q == 0)) := by
+  by_cases hrq : (a == Act.rem || a == Act.quo) = true
+  · simp [hrq, zeroConstY_typed c1 k q h1ty h1rv]
+  · simp [hrq]
+
+/-- `check.binaryExpr`, first operand an untyped integer constant, second of integer type `k` -/
+theorem checkBinaryY_ut (a : Act) (ha : isArith a = true) (c0 c1 : NS) (k : IKind) (ka : UK) (p q : Int)
+    (hka : ka = .int ∨ ka = .rune) (h0ty : c0.ty = .u ka) (h0rv : c0.rv = .c (.int p))
+    (h1ty : c1.ty = .t (.i k)) (h1rv : c1.rv = .r (.i k) (.int q)) :
+    checkBinaryY F0 none a c0 c1 =
+      if ((a == Act.rem || a == Act.quo) && (!c1.set && q == 0)) = true then .reject
+      else if Spec.reprGo k p = true then
+        .ok ({ c0 with rv := .r (.i k) (.int p), ty := .t (.i k), self := false, set := false }, c1)
+      else .reject := by
+  have hc1 : ∀ target, convertUntypedY F0 c1 target = .ok (some c1) := fun t => convertUntypedY_typed c1 _ t h1ty
+  simp only [checkBinaryY, addOkY, Bool.not_true, Bool.false_eq_true, if_false, zero_typed_cases a c1 k q h1ty h1rv, bind_ok]
+  split
+  · rfl
+  · simp only [Expected.C03.checkFacts, F0_chk, Bool.and_false, Bool.false_eq_true, if_false, h1ty]
+    by_cases hr : Spec.reprGo k p = true
+    · rw [if_pos hr, convertUntypedY_int c0 ka hka p k h0ty h0rv hr]
+      simp only [bind_ok, Option.getD_some, hc1]
+      cases a <;> simp [isArith] at ha <;> simp [binaryPredY, h1ty, Ty.isNumber, Ty.isInt, Ty.rtype, BT.isInt]
+    · have hr' : Spec.reprGo k p = false := by simpa using hr
+      rw [if_neg hr, convertUntypedY_int_none c0 ka hka p k h0ty h0rv hr']
+      simp [hc1, h0ty, h1ty]
+
+/-- `check.binaryExpr`, both operands typed -/
+theorem checkBinaryY_tt (a : Act) (ha : isArith a = true) (c0 c1 : NS) (k k' : IKind) (q : Int)
+    (h0ty : c0.ty = .t (.i k)) (h1ty : c1.ty = .t (.i k')) (h1rv : c1.rv = .r (.i k') (.int q)) :
+    checkBinaryY F0 none a c0 c1 =
+      if ((a == Act.rem || a == Act.quo) && (!c1.set && q == 0)) = true then .reject
+      else if k = k' then .ok (c0, c1) else .reject := by
   have hc0 : ∀ target, convertUntypedY F0 c0 target = .ok (some c0) := fun t => convertUntypedY_typed c0 _ t h0ty
   have hc1 : ∀ target, convertUntypedY F0 c1 target = .ok (some c1) := fun t => convertUntypedY_typed c1 _ t h1ty
-  have hf1 := foldBinY_typed a ha k (.r (.i k) (.int p)) (.r (.i k) (.int q)) p q (Or.inl rfl) (Or.inl rfl)
-    (by simp) hp hq hz hr
-  obtain ⟨rv0, ty0, s0, i0, f0⟩ := c0
-  obtain ⟨rv1, ty1, s1, i1, f1⟩ := c1
-  simp only at h0ty h0rv h1ty h1rv
-  subst h0ty h0rv h1ty h1rv
-  by_cases hquo : a = .quo
-  · subst hquo
-    simp [binNodeY, checkBinaryY, hz1, binTypeY, Ty.untyped, hf1, fixUntypedY]
-  · cases a <;> simp [isArith] at ha <;> first
-      | exact absurd rfl hquo
-      | simp [binNodeY, checkBinaryY, hz1, hc0, hc1, binaryPredY, binTypeY, Ty.untyped, Ty.isInt, Ty.isNumber,
-          Ty.rtype, BT.isInt, hf1, fixUntypedY]
+  simp only [checkBinaryY, addOkY, Bool.not_true, Bool.false_eq_true, if_false, zero_typed_cases a c1 k' q h1ty h1rv, bind_ok]
+  split
+  · rfl
+  · simp only [Expected.C03.checkFacts, F0_chk, Bool.and_false, Bool.false_eq_true, if_false, hc0, hc1, bind_ok,
+      Option.getD_some, h0ty, h1ty]
+    by_cases hk : k = k'
+    · subst hk
+      cases a <;> simp [isArith] at ha <;> simp [binaryPredY, Ty.isNumber, Ty.isInt, Ty.rtype, BT.isInt]
+    · simp [hk]
 
 /-! ### the Go side of the same four cases -/
 
@@ -175,73 +275,97 @@ theorem matchTypes_tt (k k' : IKind) (p q : Int) :
       if k = k' then .ok (.int p, .int q, .t (.i k)) else .reject := by
   by_cases h : k = k' <;> simp [Spec.matchTypes, h]
 
-/-- **arithmetic node**: if the specification accepts `x op y` on integer constants, the interpreter's post-order
-    case computes the same value and type (except that a rune/int quotient is typed int, which is excluded) -/
-theorem binNode_correct (env : Env) (a : Act) (ha : isArith a = true) (c0 c1 : NS)
-    (g0 g1 gv : Spec.GV) (i0 : Inv c0 g0) (i1 : Inv c1 g1)
-    (hq : a = .quo → ¬ (g0.ty = .u .rune ∧ g1.ty = .u .int))
-    (hgo : ((Spec.matchTypes g0 g1).bind fun x => Spec.arithGo a x.1 x.2.1 x.2.2) = .ok gv) :
-    ∃ n, binNodeY F0 env none a c0 c1 = .ok n ∧ Inv n gv := by
+/-- the specification on two integer constants of one integer type -/
+theorem arithGo_typed (a : Act) (ha : isArith a = true) (k : IKind) (p q : Int) :
+    Spec.arithGo a (.int p) (.int q) (.t (.i k)) =
+      if needsNZ a = true ∧ q = 0 then .reject
+      else if Spec.reprGo k (iop a p q) = true then .ok ⟨.int (iop a p q), .t (.i k)⟩ else .reject := by
+  rw [arithGo_int a ha p q _ rfl, finish_typed_int_eq]
+
+/-- relation between the closed forms of the two sides for operands of one integer type -/
+theorem rel_typed (a : Act) (k : IKind) (p q : Int) :
+    Rel (if needsNZ a = true ∧ q = 0 then .reject
+         else if Spec.reprGo k (iop a p q) = true then
+           .ok { rv := .r (.i k) (.int (iop a p q)), ty := .t (.i k), set := true }
+         else .reject)
+        (if needsNZ a = true ∧ q = 0 then .reject
+         else if Spec.reprGo k (iop a p q) = true then .ok ⟨.int (iop a p q), .t (.i k)⟩ else .reject) := by
+  by_cases hz : needsNZ a = true ∧ q = 0
+  · rw [if_pos hz, if_pos hz]; exact .rej
+  · rw [if_neg hz, if_neg hz]
+    by_cases hr : Spec.reprGo k (iop a p q) = true
+    · rw [if_pos hr, if_pos hr]; exact .ok _ _ (Inv.of_typed _ _ _ rfl rfl hr)
+    · rw [if_neg hr, if_neg hr]; exact .rej
+
+theorem needsNZ_iff (a : Act) : needsNZ a = (a == Act.rem || a == Act.quo) := by
+  cases a <;> rfl
+
+/-- **arithmetic node, both directions**: on integer constants the post-order case `binaryExpr` of the interpreter
+    model and the specification agree — same value and type, or both reject -/
+theorem binNode_rel (env : Env) (a : Act) (ha : isArith a = true) (c0 c1 : NS)
+    (g0 g1 : Spec.GV) (i0 : Inv c0 g0) (i1 : Inv c1 g1) :
+    Rel (binNodeY F0 env none a c0 c1) ((Spec.matchTypes g0 g1).bind fun x => Spec.arithGo a x.1 x.2.1 x.2.2) := by
   rcases i0.shape with ⟨ka, p, hka, rfl, h0ty, h0rv⟩ | ⟨k, p, rfl, h0ty, h0rv, hp⟩ <;>
   rcases i1.shape with ⟨kb, q, hkb, rfl, h1ty, h1rv⟩ | ⟨k', q, rfl, h1ty, h1rv, hq'⟩
   · -- untyped, untyped
-    rw [matchTypes_uu ka kb p q hka hkb] at hgo
-    simp only [bind_ok] at hgo
-    have hint : Spec.isIntTy (.u (umax ka kb)) = true := by
-      rcases hka with rfl | rfl <;> rcases hkb with rfl | rfl <;> rfl
-    rw [arithGo_int a ha p q _ hint] at hgo
+    rw [binNodeY_uu env none (by simp) a ha c0 c1 ka kb p q hka hkb h0ty h0rv h1ty h1rv, matchTypes_uu ka kb p q hka hkb]
+    simp only [bind_ok]
+    have hum := umax_int_or_rune ka kb hka hkb
+    have hint : Spec.isIntTy (.u (umax ka kb)) = true := by rcases hum with h | h <;> rw [h] <;> rfl
+    rw [arithGo_int a ha p q _ hint, finish_untyped_int_eq _ _ hum]
     by_cases hz : needsNZ a = true ∧ q = 0
-    · rw [if_pos hz] at hgo; cases hgo
-    · rw [if_neg hz] at hgo
-      have humax : umax ka kb = .int ∨ umax ka kb = .rune := by
-        rcases hka with rfl | rfl <;> rcases hkb with rfl | rfl <;> simp [umax, Spec.ukRank]
-      have hgv := finish_untyped_int _ _ humax gv hgo
-      subst hgv
-      refine ⟨_, binNodeY_uu env a ha c0 c1 ka kb p q hka hkb h0ty h0rv h1ty h1rv ?_ hz, ?_⟩
-      · intro haq ⟨h1, h2⟩; exact hq haq ⟨by rw [h1], by rw [h2]⟩
-      · exact Inv.of_untyped _ _ _ humax rfl rfl
+    · rw [if_pos hz, if_pos hz]; exact .rej
+    · rw [if_neg hz, if_neg hz]
+      by_cases hb : bitLen (iop a p q) > 512
+      · rw [if_pos hb, if_pos (by simpa [Spec.maxUntypedBits] using hb)]; exact .rej
+      · rw [if_neg hb, if_neg (by simpa [Spec.maxUntypedBits] using hb)]
+        exact .ok _ _ (Inv.of_untyped _ _ _ hum rfl rfl)
   · -- untyped, typed
-    rw [matchTypes_ut k' ka p q hka] at hgo
+    rw [binNodeY_post, checkBinaryY_ut a ha c0 c1 k' ka p q hka h0ty h0rv h1ty h1rv, matchTypes_ut k' ka p q hka]
     by_cases hp : Spec.reprGo k' p = true
-    · rw [if_pos hp] at hgo
-      simp only [bind_ok] at hgo
-      rw [arithGo_int a ha p q _ rfl] at hgo
-      by_cases hz : needsNZ a = true ∧ q = 0
-      · rw [if_pos hz] at hgo; cases hgo
-      · rw [if_neg hz] at hgo
-        obtain ⟨hgv, hr⟩ := finish_typed_int _ _ gv hgo
-        subst hgv
-        exact ⟨_, binNodeY_ut env a ha c0 c1 k' ka p q h0ty h0rv h1ty h1rv hp hq' hz hr,
-          Inv.of_typed _ _ _ rfl rfl hr⟩
-    · rw [if_neg hp] at hgo; cases hgo
+    · simp only [if_pos hp, bind_ok]
+      rw [arithGo_typed a ha]
+      by_cases hzr : ((a == Act.rem || a == Act.quo) && (!c1.set && q == 0)) = true
+      · rw [if_pos hzr]
+        have hz : needsNZ a = true ∧ q = 0 := by
+          rw [needsNZ_iff]; simp only [Bool.and_eq_true, beq_iff_eq] at hzr; exact ⟨hzr.1, hzr.2.2⟩
+        rw [if_pos hz]; exact .rej
+      · rw [if_neg hzr]
+        simp only [bind_ok]
+        rw [postCheck_rr env a ha _ c1 k' p q rfl rfl h1ty h1rv hp hq']
+        exact rel_typed a k' p q
+    · simp only [if_neg hp, bind_reject]
+      split <;> exact .rej
   · -- typed, untyped
-    rw [matchTypes_tu k kb p q hkb] at hgo
-    by_cases hq2 : Spec.reprGo k q = true
-    · rw [if_pos hq2] at hgo
-      simp only [bind_ok] at hgo
-      rw [arithGo_int a ha p q _ rfl] at hgo
-      by_cases hz : needsNZ a = true ∧ q = 0
-      · rw [if_pos hz] at hgo; cases hgo
-      · rw [if_neg hz] at hgo
-        obtain ⟨hgv, hr⟩ := finish_typed_int _ _ gv hgo
-        subst hgv
-        exact ⟨_, binNodeY_tu env a ha c0 c1 k kb p q hkb h0ty h0rv h1ty h1rv hp hq2 hz hr,
-          Inv.of_typed _ _ _ rfl rfl hr⟩
-    · rw [if_neg hq2] at hgo; cases hgo
+    rw [binNodeY_post, checkBinaryY_tu a ha c0 c1 k kb q hkb h0ty h1ty h1rv, matchTypes_tu k kb p q hkb]
+    by_cases hz : needsNZ a = true ∧ q = 0
+    · rw [if_pos hz]
+      by_cases hq2 : Spec.reprGo k q = true
+      · simp only [if_pos hq2, bind_ok, bind_reject]
+        rw [arithGo_typed a ha, if_pos hz]; exact .rej
+      · simp only [if_neg hq2, bind_reject]; exact .rej
+    · rw [if_neg hz]
+      by_cases hq2 : Spec.reprGo k q = true
+      · simp only [if_pos hq2, bind_ok]
+        rw [arithGo_typed a ha, postCheck_rr env a ha c0 _ k p q h0ty h0rv rfl rfl hp hq2]
+        exact rel_typed a k p q
+      · simp only [if_neg hq2, bind_reject]; exact .rej
   · -- typed, typed
-    rw [matchTypes_tt k k' p q] at hgo
+    rw [binNodeY_post, checkBinaryY_tt a ha c0 c1 k k' q h0ty h1ty h1rv, matchTypes_tt k k' p q]
     by_cases hk : k = k'
     · subst hk
-      rw [if_pos rfl] at hgo
-      simp only [bind_ok] at hgo
-      rw [arithGo_int a ha p q _ rfl] at hgo
-      by_cases hz : needsNZ a = true ∧ q = 0
-      · rw [if_pos hz] at hgo; cases hgo
-      · rw [if_neg hz] at hgo
-        obtain ⟨hgv, hr⟩ := finish_typed_int _ _ gv hgo
-        subst hgv
-        exact ⟨_, binNodeY_tt env a ha c0 c1 k p q h0ty h0rv h1ty h1rv hp hq' hz hr,
-          Inv.of_typed _ _ _ rfl rfl hr⟩
-    · rw [if_neg hk] at hgo; cases hgo
+      simp only [if_true, bind_ok]
+      rw [arithGo_typed a ha]
+      by_cases hzr : ((a == Act.rem || a == Act.quo) && (!c1.set && q == 0)) = true
+      · rw [if_pos hzr]
+        have hz : needsNZ a = true ∧ q = 0 := by
+          rw [needsNZ_iff]; simp only [Bool.and_eq_true, beq_iff_eq] at hzr; exact ⟨hzr.1, hzr.2.2⟩
+        rw [if_pos hz]; exact .rej
+      · rw [if_neg hzr]
+        simp only [bind_ok]
+        rw [postCheck_rr env a ha c0 c1 k p q h0ty h0rv h1ty h1rv hp hq']
+        exact rel_typed a k p q
+    · simp only [if_neg hk, bind_reject]
+      split <;> exact .rej
 
 end YaegiVerif.Proofs.C03
